@@ -263,7 +263,9 @@ def probe_cases(draw):
             'echo': draw(st.booleans()), 'sighup': draw(st.booleans()),
             'styles': draw(st.lists(st.sampled_from(['esc', 'sq', 'dq']), min_size=6, max_size=6)),
             # the same request objects (argument list, env mapping) are used for a second launch
-            'relaunch': draw(st.integers(0, 3)) == 0}
+            'relaunch': draw(st.integers(0, 3)) == 0,
+            # a preexec_fn of the caller's own next to the other launch options (pty launches)
+            'preexec': draw(st.booleans())}
 
 
 def _render_arg(a, style):
@@ -304,6 +306,10 @@ def check_bare(case, col=None):
         col.case(case, True)
 
 
+def _set_umask():
+    os.umask(0o027)
+
+
 def check_probe(case, col=None):
     if case['form'] == 'bare':
         return check_bare(case, col)
@@ -337,6 +343,8 @@ def check_probe(case, col=None):
                     pk = dict(cwd=cwd, env=env, echo=case['echo'], ignore_sighup=case['sighup'], timeout=20, **kw)
                     if case['dims']:
                         pk['dimensions'] = tuple(case['dims'])
+                    if case.get('preexec'):
+                        pk['preexec_fn'] = _set_umask
                     if case['form'] == 'run':
                         # through run(): the same launch parameters travel as run()'s own arguments and **kwargs,
                         # with either of its two ways of passing the timeout on
